@@ -104,6 +104,7 @@ let sx_to_string s = let b = Buffer.create 256 in print_sx b s; Buffer.contents 
 
 let judge_of (prop : string) : sx -> sx -> sx =
   match prop with
+  | "C12" -> judge12
   | "C18" -> judge18
   | _ -> failwith ("unknown property " ^ prop)
 
